@@ -217,8 +217,10 @@ class Ctx:
             else:
                 self.res.count("harness_errors")
                 self.res.notes.append(f"case {case}: harness error {type(e).__name__}: {e}\n{tb}")
-                if self.res.inconclusive is None:
-                    self.res.inconclusive = f"harness error in case {case}: {type(e).__name__}: {e}"[:300]
+                self.res.counters.setdefault("first_harness_error", 0)
+                if not getattr(self.res, "_first_he", None):
+                    self.res._first_he = f"case {case}: {type(e).__name__}: {e}"[:300]
+                    self.res.notes.insert(0, "first harness error: " + self.res._first_he)
         return None
 
     def log(self, *a):
